@@ -2,7 +2,7 @@
 // transformation to one Go file of a copy of /repo and writes the file back. The benign-edit sweep
 // (tools/benign_sweep.py) uses it to try every rule on code that looks different and does the same.
 //
-//	refactor -dir <copy of repo> -file <relative path> -t reverse-cases|swap-if-else|inc-to-add|rename-locals|commute-compare
+//	refactor -dir <copy of repo> -file <relative path> -t reverse-cases|swap-if-else|inc-to-add|rename-locals|commute-compare|unnest-else|nest-else
 package main
 
 import (
@@ -165,6 +165,126 @@ func main() {
 			be.X, be.Y = paren(be.Y), paren(be.X)
 			be.Op = op
 			n++
+			return true
+		})
+	case "unnest-else":
+		// if c { …; return } else { B }  ->  if c { …; return }; B   (the else block declares nothing and is the last
+		// statement form golint asks for); applied innermost first, one level per list
+		terminates := func(b *ast.BlockStmt) bool {
+			if len(b.List) == 0 {
+				return false
+			}
+			switch x := b.List[len(b.List)-1].(type) {
+			case *ast.ReturnStmt:
+				return true
+			case *ast.BranchStmt:
+				return x.Tok == token.CONTINUE || x.Tok == token.BREAK || x.Tok == token.GOTO
+			}
+			return false
+		}
+		declares := func(b *ast.BlockStmt) bool {
+			for _, st := range b.List {
+				switch x := st.(type) {
+				case *ast.AssignStmt:
+					if x.Tok == token.DEFINE {
+						return true
+					}
+				case *ast.DeclStmt, *ast.LabeledStmt:
+					return true
+				}
+			}
+			return false
+		}
+		var fix func(list []ast.Stmt) []ast.Stmt
+		fix = func(list []ast.Stmt) []ast.Stmt {
+			out := make([]ast.Stmt, 0, len(list))
+			for _, st := range list {
+				ifs, ok := st.(*ast.IfStmt)
+				if ok && ifs.Init == nil && ifs.Else != nil && terminates(ifs.Body) {
+					if eb, isBlk := ifs.Else.(*ast.BlockStmt); isBlk && !declares(eb) {
+						ifs.Else = nil
+						out = append(out, ifs)
+						out = append(out, eb.List...)
+						n++
+						continue
+					}
+				}
+				out = append(out, st)
+			}
+			return out
+		}
+		ast.Inspect(af, func(m ast.Node) bool {
+			switch x := m.(type) {
+			case *ast.BlockStmt:
+				x.List = fix(x.List)
+			case *ast.CaseClause:
+				x.Body = fix(x.Body)
+			}
+			return true
+		})
+	case "nest-else":
+		// if c { …; return }; B…  ->  if c { …; return } else { B… }   (the first such if of every statement list that
+		// holds no label behind it; a function's last statement is kept outside when the function has results)
+		terminates := func(b *ast.BlockStmt) bool {
+			if len(b.List) == 0 {
+				return false
+			}
+			_, isRet := b.List[len(b.List)-1].(*ast.ReturnStmt)
+			return isRet
+		}
+		hasLabel := func(list []ast.Stmt) bool {
+			found := false
+			for _, st := range list {
+				ast.Inspect(st, func(q ast.Node) bool {
+					if _, isL := q.(*ast.LabeledStmt); isL {
+						found = true
+					}
+					return true
+				})
+			}
+			return found
+		}
+		endsInReturn := func(list []ast.Stmt) bool {
+			if len(list) == 0 {
+				return false
+			}
+			_, isRet := list[len(list)-1].(*ast.ReturnStmt)
+			return isRet
+		}
+		fix := func(list []ast.Stmt, needsTerminator bool) []ast.Stmt {
+			for i, st := range list {
+				ifs, ok := st.(*ast.IfStmt)
+				if !ok || ifs.Else != nil || !terminates(ifs.Body) || i == len(list)-1 {
+					continue
+				}
+				rest := list[i+1:]
+				if hasLabel(rest) || hasLabel([]ast.Stmt{ifs}) {
+					return list
+				}
+				if needsTerminator && !endsInReturn(rest) {
+					return list
+				}
+				moved := make([]ast.Stmt, len(rest))
+				copy(moved, rest)
+				ifs.Else = &ast.BlockStmt{List: moved}
+				n++
+				return list[:i+1]
+			}
+			return list
+		}
+		ast.Inspect(af, func(m ast.Node) bool {
+			switch x := m.(type) {
+			case *ast.FuncDecl:
+				if x.Body != nil {
+					x.Body.List = fix(x.Body.List, x.Type.Results != nil)
+				}
+			case *ast.CaseClause:
+				x.Body = fix(x.Body, false)
+			case *ast.ForStmt:
+				x.Body.List = fix(x.Body.List, false)
+			case *ast.RangeStmt:
+				x.Body.List = fix(x.Body.List, false)
+			}
 			return true
 		})
 	case "rename-locals":
